@@ -125,7 +125,8 @@ Lemma unroll_w_unfold env reps node w :
 Proof. destruct node; reflexivity. Qed.
 
 (* the whole abbreviation: when no implicit repeater and no `$#` took the text, it goes once into the
-   deepest last element (convert) *)
+   deepest last element (convert); [insert_wrap] = insert_text followed, on an `a` element under
+   markup.href, by insert_href (proofs/HrefProofs.v: value as by insert_text, only attributes differ) *)
 Definition whole_text (t : wtext) : str :=
   match t with
   | WList l => strip (join [c_nl] l)
@@ -136,7 +137,7 @@ Definition finish_w (env : cenv) (xw : list anode * wst) : list anode :=
   let '(x, w) := xw in
   match ce_text env with
   | WNone => x
-  | _ => if w_tins w then x else on_last_deepest (fun n => insert_text n (whole_text (ce_text env))) x
+  | _ => if w_tins w then x else on_last_deepest (fun n => insert_wrap env n (whole_text (ce_text env))) x
   end.
 Definition convert_w (env : cenv) (max_repeat : option N) (root : list tnode) : list anode :=
   finish_w env (list_w (unroll_w env []) root (mkW (budget_of max_repeat) false false)).
